@@ -244,6 +244,59 @@ def _guards(fn, pred):
     return out
 
 
+def _capacity_backed(ctx):
+    """The two data-page loaders executed abstractly (copy path) for start capacities 0 / 60 / 100 x pages of
+    10 / 100 / 150 values x INT32 / INT64 with and without levels: whatever decoded_capacity says afterwards,
+    each decode buffer that the reader holds was allocated with at least capacity * element size bytes (or is
+    the buffer it had, with the capacity it had)."""
+    from ..rules import loaders as L
+    from ..rules import sem
+    P = ctx.P
+    pt = P.enum("carquet_physical_type")
+    for fname in ("load_next_page_fread", "load_next_page_mmap"):
+        key = "capacity-backed|%s:%s" % (L.PR, fname)
+        what = ("after %s the recorded decoded_capacity is backed by the value, definition-level and repetition-level buffers "
+                "(abstract execution: start capacity x page value count x type x levels)" % fname)
+        bad = None
+        nok = 0
+        try:
+            for c0 in (0, 60, 100):
+                for nv in (10, 100, 150):
+                    for tname, vs in (("CARQUET_PHYSICAL_INT32", 4), ("CARQUET_PHYSICAL_INT64", 8)):
+                        for levels in (True, False):
+                            # uncompressed, non-view scenario: the copy path (map misaligned for the mmap loader)
+                            ret, ev, st = L.trace(P, fname, page_type=P.enum("carquet_page_type").get("CARQUET_PAGE_DATA", 0), has_crc=False, verify=False,
+                                                  stored_crc=0, computed_crc=0, codec=1, levels=levels, num_values=nv, capacity=c0, ptype=pt[tname], map_align=1,
+                                                  usize=nv * vs + (6 + nv // 4 if levels else 0))
+                            if ret != 0:
+                                continue
+                            nok += 1
+                            cap = st["decoded_capacity"]
+                            sizes = {e[1]: e[2] for e in ev if e[0] == "malloc"}
+                            sc = "start capacity %d, page of %d %s values%s" % (c0, nv, tname.replace("CARQUET_PHYSICAL_", ""), ", levels" if levels else "")
+                            if not isinstance(cap, int) or cap < nv:
+                                bad = bad or "%s: decoded_capacity %s after the load" % (sc, cap)
+                                continue
+                            for member, esz, old in (("decoded_values", vs, "dv"), ("decoded_def_levels", 2, "ddl"), ("decoded_rep_levels", 2, "drl")):
+                                b = st[member]
+                                base = b[0] if isinstance(b, tuple) else None
+                                if base == old:
+                                    have = c0 * esz
+                                elif base in sizes and isinstance(sizes[base], int):
+                                    have = sizes[base]
+                                elif base == "map" or base is None:
+                                    continue        # a view / not held: not a buffer of the reader
+                                else:
+                                    have = None
+                                if have is None or have < cap * esz:
+                                    bad = bad or "%s: decoded_capacity is %d but %s holds %s bytes (%d needed)" % (sc, cap, member, have, cap * esz)
+        except (sem.Inconclusive, KeyError) as ex:
+            ctx.inconclusive("R17.capacity", key, L.PR, what, "%s: %s" % (type(ex).__name__, ex))
+            continue
+        ctx.floor("C04 %s scenarios that load a page" % fname, nok, 24)
+        ctx.ob("R17.capacity", key, L.PR, what, bad is None, bad or "")
+
+
 def run(ctx):
     P = ctx.P
     ctx.clause("C04.1 untrusted offsets/sizes/counts are validated before they reach a sink")
@@ -489,6 +542,13 @@ def run(ctx):
     from ..rules import stalefield
     nst = stalefield.check(ctx, P.funcs_under("src/reader/") + P.funcs_in("src/metadata/schema.c", "src/core/buffer.c"))
     ctx.floor("C04 member frees outside destructors", nst, 20)
+
+    ctx.clause("C04.12 level-block length prefixes: a page is accepted exactly when its blocks fit, and the decoders only receive bytes of the page")
+    from ..rules import pageread
+    nle = pageread.check_level_extents(ctx)
+    ctx.floor("C04 level-extent scenarios", nle, 100)
+    ctx.clause("C04.11 after a page is loaded the recorded decode capacity is backed by all three decode buffers")
+    _capacity_backed(ctx)
 
     # ---- (2) recursion, (3) ownership
     recursion.check(ctx, "R8", "recursion")
